@@ -383,7 +383,10 @@ def claimPay (u expAmt : Nat) (st : ClaimLoop) (emission uw g : Nat) : Res (Iter
 def claimEpoch (s : St) (u : Addr) (expAmt expEnd : Nat) (st0 : ClaimLoop) (ep : Nat) : Res (Iter ClaimLoop) :=
   let st := { st0 with count := st0.count + 1 }
   if st.count > INCENTIVE_EPOCH_CLAIM_CAP then .ok (.stop st)
-  else if ep < st.flow.startE then .ok (.next st)
+  else if ep < st.flow.startE then
+    -- the flow is not active yet: skip, but keep track of the weight recorded for the skipped epoch
+    let wa := weightAt s u ep st.lastUpd st.lastSeen
+    .ok (.next { st with lastUpd := wa.1, lastSeen := wa.2.1 })
   else if ep ≥ expEnd then .ok (.stop st)
   else
     match emissionStep st.flow st.flow.emitted ep with
@@ -492,7 +495,10 @@ def rewardsAdd (f : Flow) (expAmt : Nat) (st : RewLoop) (emission uw g : Nat) : 
 
 /-- body of the epoch loop in `get_rewards.rs` (no epoch cap; the flow itself is not updated) -/
 def rewardsEpoch (s : St) (u : Addr) (f : Flow) (expAmt expEnd : Nat) (st : RewLoop) (ep : Nat) : Res (Iter RewLoop) :=
-  if ep < f.startE then .ok (.next st)
+  if ep < f.startE then
+    -- the flow is not active yet: skip, but keep track of the weight recorded for the skipped epoch
+    let wa := weightAt s u ep st.lastUpd st.lastSeen
+    .ok (.next { st with lastUpd := wa.1, lastSeen := wa.2.1 })
   else if ep ≥ expEnd then .ok (.stop st)
   else
     match emissionStep f st.emitted ep with
